@@ -32,6 +32,8 @@
         let mut sent: Option<u8> = None; // the one accepted value (for the broadcast flavour)
         let mut next_tag: u8 = 1;
         let mut delivered = 0u8;
+        let mut dead = [false; K]; // slot's future was dropped and not re-created yet
+        let mut dsn = [[0u32; 2]; K]; // wake counts of its two wakers just before the drop
         let mut alive = [true; K];
         let mut pending = [false; K];
         let mut done = [false; K];
@@ -55,6 +57,7 @@
                 if !alive[i] {
                     *f = ManuallyDrop::new(ch.receive());
                     alive[i] = true;
+                    dead[i] = false;
                     fresh[i] = true;
                     oracle!(p, P17, !f.is_terminated(), "C17 oneshot: fresh receive future reports terminated");
                 }
@@ -94,6 +97,8 @@
                 let i = (op - 6) as usize;
                 s.assume(alive[i] && (pending[i] || done[i]));
                 let f = match i { 0 => &mut f0, 1 => &mut f1, _ => &mut f2 };
+                dsn[i] = match i { 0 => [c0a.n(), c0b.n()], 1 => [c1a.n(), c1b.n()], _ => [c2a.n(), c2b.n()] };
+                dead[i] = true;
                 unsafe { ManuallyDrop::drop(f) };
                 alive[i] = false;
                 pending[i] = false;
@@ -136,6 +141,12 @@
                     }
                     i += 1;
                 }
+            }
+            if (p & P01) != 0 {
+                // C01: a dropped future is in no wait queue any more, so its task is never woken again
+                if dead[0] { assert!(c0a.n() == dsn[0][0] && c0b.n() == dsn[0][1], "C01 oneshot: the task of a dropped future was woken (dangling waiter)"); }
+                if dead[1] { assert!(c1a.n() == dsn[1][0] && c1b.n() == dsn[1][1], "C01 oneshot: the task of a dropped future was woken (dangling waiter)"); }
+                if dead[2] { assert!(c2a.n() == dsn[2][0] && c2b.n() == dsn[2][1], "C01 oneshot: the task of a dropped future was woken (dangling waiter)"); }
             }
             if (p & P17) != 0 {
                 if alive[0] { assert!(f0.is_terminated() == done[0], "C17 oneshot: is_terminated() differs from 'completed'"); }
